@@ -130,6 +130,24 @@ def make_cases(seed, n, maxops):
         r = e2v.rng(seed, "c16", i)
         g = gen_geom(r)
         ops = gen_ops(r, g, r.randint(3, maxops))
+        # resizes: the geometry changes in mid-sequence (same real_end: the in-place path; other real_end: reallocation)
+        cur = g
+        while i % 3 == 0 and r.random() < 0.6:
+            start, end, real_end, cb = cur
+            if r.random() < 0.5:
+                ops.append("PAD")
+            k = r.random()
+            if k < 0.35 and real_end > end:
+                ne, nre = r.randint(end, real_end), real_end            # grow inside the allocated range
+            elif k < 0.6:
+                ne, nre = r.randint(start, end), real_end               # shrink, same allocation
+            elif k < 0.8:
+                ne = end + r.randint(1, 40); nre = ne + r.choice([0, 3, 8])   # grow with reallocation
+            else:
+                ne = r.randint(start, end); nre = ne + r.choice([0, 1, 9])   # shrink with reallocation
+            ops.append("RS %d %d" % (ne, nre))
+            cur = (start, ne, nre, cb)
+            ops += gen_ops(r, cur, r.randint(2, max(3, maxops // 2)))
         cases.append((g, ops))
     return cases
 
@@ -137,6 +155,7 @@ def make_cases(seed, n, maxops):
 CORPUS = [
     # minimised past failures / proof boundary cases, run first
     ((0, 63, 63, 0), ["FZ 0 63", "GR 0 16", "M 10", "M 11", "U 9", "T 9", "FZ 10 63"]),
+    ((0, 40, 47, 0), ["M 40", "PAD", "RS 30 47", "RS 44 47", "T 35", "T 41", "FS 0 44", "RS 46 60", "FS 31 46"]),
     ((1, 40, 47, 0), ["MR 5 5", "SR 9 16 1111000011110000", "GR 1 40", "TR 10 3", "SNAP", "M 40", "CMP"]),
     ((0, 30, 31, 2), ["M 7", "MR 8 9", "T 4", "FS 0 100", "FZ 4 123", "UR 3 2", "TR 0 4"]),
 ]
@@ -157,7 +176,7 @@ def shrink(geom, ops, fails):
 
 def setup(src):
     e2v.build_harness("h_bitmap", src)
-    e2v.build_driver("bitmap", ["theories/Bitmap/RBModel.vo", "theories/Bitmap/BAModel.vo"], ["bitmap_model"])
+    e2v.build_driver("bitmap", ["theories/Bitmap/RBModel.vo", "theories/Bitmap/BAModel.vo", "theories/Bitmap/BmResize.vo"], ["bitmap_model"])
 
 
 def run(res, replay=None):
@@ -175,7 +194,7 @@ def run(res, replay=None):
     res.assumptions = ["resize/fudge_end, the legacy 32-bit bitmaps (gen_bitmap.c) and allocation failure are not modelled: partial",
                        "array alignment in the C run is whatever malloc returns (al = 0); the theorem covers every alignment"]
     res.cov["partial"] = ["ext2fs_resize_generic_bmap / fudge_end not modelled", "legacy 32-bit bitmap (gen_bitmap.c) covered by correspondence of the 64-bit API only"]
-    mexe = e2v.build_driver("bitmap", ["theories/Bitmap/RBModel.vo", "theories/Bitmap/BAModel.vo"], ["bitmap_model"])
+    mexe = e2v.build_driver("bitmap", ["theories/Bitmap/RBModel.vo", "theories/Bitmap/BAModel.vo", "theories/Bitmap/BmResize.vo"], ["bitmap_model"])
 
     if replay:
         rp = json.load(open(replay))
